@@ -33,7 +33,7 @@ From TLV Require Import Base.Shape Base.PyList Base.Tensor Base.BigSum Model.Bas
   Proofs.TenalgProofsEinsumMttkrp Proofs.TenalgProofsEinsumKR Proofs.TenalgProofsEinsumOuter Proofs.TenalgProofsMultiGen Proofs.TenalgProofsMultiGen2 Proofs.TenalgProofsMemory
   Proofs.TenalgProofsTdotE Proofs.TenalgProofsTdotC Proofs.TenalgProofsEinsumMulti Proofs.TenalgProofsValidate Proofs.TenalgProofsTdotInner Proofs.TenalgProofsKRBcast Proofs.TenalgProofsNegMode Proofs.TenalgProofsNegMulti Proofs.TenalgProofsReject Proofs.TenalgProofsRepeat Proofs.TenalgProofsEq Proofs.TenalgProofsAnyModes Proofs.TenalgProofsW1
   Proofs.TenalgProofsSrc Proofs.TenalgProofsDefault Proofs.TenalgProofsMemW1 Proofs.TenalgProofsTdotRepeat
-  Model.TenalgRaw Proofs.TenalgProofsInnerRaw Proofs.TenalgProofsBcast Proofs.TenalgProofsSrcInner.
+  Model.TenalgRaw Proofs.TenalgProofsInnerRaw Proofs.TenalgProofsBcast Proofs.TenalgProofsSrcInner Proofs.TenalgProofsInnerTotal.
 Import ListNotations.
 
 Definition ring_of {F} (Op : rops F) := ring_theory (r0 Op) (r1 Op) (radd Op) (rmul Op) (rsub Op) (ropp Op) (@eq F).
@@ -445,6 +445,15 @@ Example C02_inner_core_as_is_beyond_order_value_nonvacuous :
   let A := mk [2; 3] [0; 1; 2; 3; 4; 5]%Z in let B := mk [3] [1; 2; 3]%Z in
   ndim A < 3 /\ shape B = skipn (2 * ndim A - 3) (shape A) /\ inner ZR A B (Some (ndim A - (2 * ndim A - 3))) = Ok (mk [2] [8; 26]%Z).
 Proof. exact inner_as_is_beyond_value_nonvacuous. Qed.
+
+(* the three cases together: the core code's inner, for EVERY n_modes, as an explicit function of the documented routine *)
+Theorem C02_inner_core_as_is_total : forall (F : Type) (Op : rops F) (A B : tensor F) (n : nat),
+  inner_as_is Op A B n =
+  if n <=? ndim A then inner Op A B (Some n)
+  else if nat_list_eq (skipn (2 * ndim A - n) (shape A)) (firstn n (shape B))
+       then inner Op A B (Some (ndim A - (2 * ndim A - n))) else Err.
+Proof. exact @inner_as_is_total. Qed.
+Print Assumptions C02_inner_core_as_is_total.
 Example C02_inner_as_is_nonvacuous :
   (let A := mk [2; 3] [0; 1; 2; 3; 4; 5]%Z in let B := mk [3; 2] [1; 2; 3; 4; 5; 6]%Z in
    1 <= ndim A /\ inner_as_is ZR A B 1 = Ok (mk [2; 2] [13; 16; 40; 52]%Z)) /\
